@@ -52,6 +52,7 @@ func c11pools() map[string][]string {
 	for _, d := range bill.InvoiceTypes {
 		p["invoice-type"] = append(p["invoice-type"], d.Key.String())
 	}
+	p["uuid"] = []string{"urn:uuid:0190a1b2-c3d4-7e5f-8a9b-0c1d2e3f4a5b", "{0190a1b2-c3d4-7e5f-8a9b-0c1d2e3f4a5b}", "0190a1b2c3d47e5f8a9b0c1d2e3f4a5b", "0190A1B2-C3D4-7E5F-8A9B-0C1D2E3F4A5B", "0190a1b2-c3d4-7e5f-8a9b-0c1d2e3f4a5c"}
 	p["code"] = []string{"A", "a", "0", "A-1", "A/1", "A.1", "A 1", "A_1", "A:1", "1234567890123456789012345678901234567890123456789012345678901234", "ABCDEFGHIJKLMNOPQRSTUVWXYZ0123456789", "a-b/c.d e_f:g", "X1-Y2"}
 	p["name"] = []string{"A", "Ünïcödé Ñame S.L.", "名前", "O'Brien & Sons <Ltd>", "tab\tname", "x" + strings.Repeat("y", 300)}
 	p["url"] = []string{"http://example.com", "https://example.com/a?b=c#d", "https://example.com:8080/p/a/t/h", "ftp://example.com/file", "http://localhost", "https://xn--nxasmq6b.example", "HTTP://EXAMPLE.COM", "https://example.com/%20space", "http://example.com/ñ"}
@@ -78,6 +79,8 @@ func c11variants(doc *jmut.Node, pools map[string][]string, pick func(n int) int
 		key := p[len(p)-1].Key
 		cls := p.Class()
 		switch {
+		case key == "uuid":
+			cands = append(cands, cand{p, "uuid"})
 		case key == "unit":
 			cands = append(cands, cand{p, "unit"})
 		case key == "key" && strings.HasSuffix(cls, "notes[].key"):
